@@ -5,8 +5,7 @@ Property theorems (algebra, all sizes). The scalar layer over ℝ (ranges, monot
 closed forms as functions of the concurrence) depends on the regenerated guard flags and lives in
 `NumqiProofs/DecisionC13.lean`.
 -/
-import NumqiProofs.EntangleConj
-import NumqiProofs.EntangleNuc
+import NumqiProofs.EntangleSpin
 import Mathlib.Analysis.SpecialFunctions.Log.NegMulLog
 import Mathlib.Analysis.Convex.Jensen
 import Mathlib.Algebra.Order.Chebyshev
@@ -26,17 +25,6 @@ open scoped Kronecker
 variable {R : Type} [CommRing R] [StarRing R]
 
 /-! ## every parameter value is a pure-state decomposition -/
-
-/-- **upper-bound theorem, matrix form.** With `ρ = S Sᴴ` (columns of `S`: `√λ_j v_j`) and any `X` (`k × r`) with
-`XᴴX = 1`, the vectors `ψ_α = Σ_j X_{αj} S_{·j}` (columns of `S Xᵀ`) satisfy `Σ_α ψ_α ψ_αᴴ = ρ`, for all sizes. -/
-theorem ensemble_decomposition {d r k : Type} [Fintype d] [Fintype r] [Fintype k] [DecidableEq r]
-    (S : Matrix d r R) (X : Matrix k r R) (hX : Xᴴ * X = 1) :
-    (S * Xᵀ) * (S * Xᵀ)ᴴ = S * Sᴴ := by
-  have h : Xᵀ * Xᵀᴴ = 1 := by
-    have : Xᵀ * Xᵀᴴ = (Xᴴ * X)ᵀ := by
-      rw [transpose_mul]; rfl
-    rw [this, hX, transpose_one]
-  rw [conjTranspose_mul, Matrix.mul_assoc, ← Matrix.mul_assoc Xᵀ, h, Matrix.one_mul]
 
 /-- the same on the model's flat arrays: `Σ_α ψ_α[k] conj ψ_α[k'] = Σ_j S[k,j] conj S[k',j]` for the ensemble
 `ψ_α = ensembleVec …` that the models contract, whenever the Stiefel matrix is an isometry. -/
@@ -95,11 +83,6 @@ theorem concPureRadicand_two_qubit (ψ : Nat → Nat → R)
 
 /-! ## the spin flip and local unitaries -/
 
-def sigmaY : Matrix (Fin 2) (Fin 2) ℂ := !![0, -Complex.I; Complex.I, 0]
-
-/-- `σ_y ⊗ σ_y` in the computational basis -/
-def sigmaYY : Matrix (Fin 4) (Fin 4) ℂ := !![0, 0, 0, -1; 0, 0, 1, 0; 0, 1, 0, 0; -1, 0, 0, 0]
-
 /-- **`z0 = (tmp0[:,None]*tmp0) * rho[::-1,::-1].conj()` is `(σy⊗σy) ρ* (σy⊗σy)`** -/
 theorem spinFlip_eq (ρ : Matrix (Fin 4) (Fin 4) ℂ) :
     (Matrix.of fun i j : Fin 4 => spinFlip (fun r c => if h : r < 4 ∧ c < 4 then ρ ⟨r, h.1⟩ ⟨c, h.2⟩ else 0) i j)
@@ -109,87 +92,37 @@ theorem spinFlip_eq (ρ : Matrix (Fin 4) (Fin 4) ℂ) :
     simp [spinFlip, flipSign, conj_eq_star, sigmaYY, Matrix.mul_apply, Fin.sum_univ_four, Matrix.vecMul, dotProduct]
 
 
-/-- `sigmaYY` is the Kronecker product of two `σ_y` (row index `2a+b`) -/
-theorem sigmaYY_eq_kron (i j : Fin 2 × Fin 2) :
-    sigmaYY (finProdFinEquiv i) (finProdFinEquiv j) = sigmaY i.1 j.1 * sigmaY i.2 j.2 := by
-  obtain ⟨a, b⟩ := i
-  obtain ⟨c, d⟩ := j
-  fin_cases a <;> fin_cases b <;> fin_cases c <;> fin_cases d <;>
-    simp [sigmaYY, sigmaY, finProdFinEquiv]
+/-- the model's spin flip as a map on 4×4 complex matrices -/
+def modelFlip (ρ : Matrix (Fin 4) (Fin 4) ℂ) : Matrix (Fin 4) (Fin 4) ℂ :=
+  Matrix.of fun i j : Fin 4 => spinFlip (fun r c => if h : r < 4 ∧ c < 4 then ρ ⟨r, h.1⟩ ⟨c, h.2⟩ else 0) i j
 
-/-- for every `2×2` matrix `σy Mᵀ σy` is the adjugate -/
-theorem sigmaY_transpose_sigmaY (M : Matrix (Fin 2) (Fin 2) ℂ) : sigmaY * Mᵀ * sigmaY = M.adjugate := by
-  rw [Matrix.adjugate_fin_two]
-  ext i j
-  fin_cases i <;> fin_cases j <;>
-    simp [sigmaY, Matrix.mul_apply, Fin.sum_univ_two, Matrix.vecMul, dotProduct] <;>
-    ring_nf <;> simp [Complex.I_sq]
+/-- the flat index `2a+b` of the model -/
+abbrev e4 : Fin 2 × Fin 2 ≃ Fin 4 := finProdFinEquiv
 
-/-- **`σy conj(U) σy = conj(det U) · U = U / det U`** for every `2×2` unitary `U` -/
-theorem sigmaY_conj_unitary (U : Matrix (Fin 2) (Fin 2) ℂ) (hU : U * Uᴴ = 1) :
-    sigmaY * U.map star * sigmaY = star U.det • U := by
-  have h1 : U.map star = Uᴴᵀ := by ext i j; simp [conjTranspose_apply]
-  rw [h1, sigmaY_transpose_sigmaY]
-  have h2 : Uᴴ * Uᴴ.adjugate = Uᴴ.det • (1 : Matrix (Fin 2) (Fin 2) ℂ) := Matrix.mul_adjugate Uᴴ
-  have h3 : U * (Uᴴ * Uᴴ.adjugate) = Uᴴ.adjugate := by rw [← Matrix.mul_assoc, hU, Matrix.one_mul]
-  rw [← h3, h2, Matrix.mul_smul, Matrix.mul_one, Matrix.det_conjTranspose]
+/-- `U ⊗ V` on the flat index `2a+b` of the model -/
+def kron4 (U V : Matrix (Fin 2) (Fin 2) ℂ) : Matrix (Fin 4) (Fin 4) ℂ :=
+  (U ⊗ₖ V).submatrix e4.symm e4.symm
 
-theorem sigmaY_mul_self : sigmaY * sigmaY = 1 := by
-  ext i j
-  fin_cases i <;> fin_cases j <;> simp [sigmaY, Matrix.mul_apply, Fin.sum_univ_two]
-
-theorem sigmaY_conjTranspose : sigmaYᴴ = sigmaY := by
-  ext i j
-  fin_cases i <;> fin_cases j <;> simp [sigmaY, conjTranspose_apply]
-
-private theorem det_norm_one (U : Matrix (Fin 2) (Fin 2) ℂ) (hU : U * Uᴴ = 1) : star U.det * U.det = 1 := by
-  have := congrArg Matrix.det hU
-  rw [Matrix.det_mul, Matrix.det_conjTranspose, Matrix.det_one] at this
-  rw [mul_comm]; exact this
-
-/-- **local-unitary covariance of the spin flip.** With `W = U ⊗ V` (`U, V ∈ U(2)`) and `Y = σy ⊗ σy`:
-`Y (W ρ Wᴴ)* Y = W (Y ρ* Y) Wᴴ`; hence `ρ ρ̃ ↦ W (ρ ρ̃) Wᴴ` is a similarity and the spectrum read by `eigvalsh`
-(and with it concurrence, EOF, GME) is unchanged. -/
-theorem spinFlip_local_unitary (U V : Matrix (Fin 2) (Fin 2) ℂ) (hU : U * Uᴴ = 1) (hV : V * Vᴴ = 1)
-    (ρ : Matrix (Fin 2 × Fin 2) (Fin 2 × Fin 2) ℂ) :
-    (sigmaY ⊗ₖ sigmaY) * ((U ⊗ₖ V) * ρ * (U ⊗ₖ V)ᴴ).map star * (sigmaY ⊗ₖ sigmaY)
-      = (U ⊗ₖ V) * ((sigmaY ⊗ₖ sigmaY) * ρ.map star * (sigmaY ⊗ₖ sigmaY)) * (U ⊗ₖ V)ᴴ := by
-  set Y := sigmaY ⊗ₖ sigmaY with hY
-  set W := U ⊗ₖ V with hW
-  have hYY : Y * Y = 1 := by
-    rw [hY, ← Matrix.mul_kronecker_mul, sigmaY_mul_self, Matrix.one_kronecker_one]
-  have hYh : Yᴴ = Y := by rw [hY, Matrix.conjTranspose_kronecker, sigmaY_conjTranspose]
-  have hmap : ∀ A B : Matrix (Fin 2 × Fin 2) (Fin 2 × Fin 2) ℂ, (A * B).map star = A.map star * B.map star := by
-    intro A B; exact Matrix.map_mul (f := starRingEnd ℂ)
-  have hWs : W.map star = U.map star ⊗ₖ V.map star := by
-    ext ⟨a, b⟩ ⟨c, d⟩; simp [hW, Matrix.kroneckerMap_apply]
-  have key : Y * W.map star * Y = (star U.det * star V.det) • W := by
-    rw [hWs, hY, ← Matrix.mul_kronecker_mul, ← Matrix.mul_kronecker_mul, sigmaY_conj_unitary U hU, sigmaY_conj_unitary V hV,
-      Matrix.smul_kronecker, Matrix.kronecker_smul, smul_smul]
-  have key2 : Y * Wᴴ.map star * Y = (U.det * V.det) • Wᴴ := by
-    have h1 : Wᴴ.map star = (W.map star)ᴴ := by ext i j; simp [conjTranspose_apply]
-    have h2 : Y * (W.map star)ᴴ * Y = (Y * W.map star * Y)ᴴ := by
-      rw [conjTranspose_mul, conjTranspose_mul, hYh, Matrix.mul_assoc]
-    rw [h1, h2, key, conjTranspose_smul]
-    simp [star_mul']
-  calc Y * (W * ρ * Wᴴ).map star * Y
-      = Y * (W.map star * ρ.map star * Wᴴ.map star) * Y := by rw [hmap, hmap]
-    _ = (Y * W.map star * Y) * (Y * ρ.map star * Y) * (Y * Wᴴ.map star * Y) := by
-        have e : ∀ A B C : Matrix (Fin 2 × Fin 2) (Fin 2 × Fin 2) ℂ, Y * (A * B * C) * Y = (Y * A * Y) * (Y * B * Y) * (Y * C * Y) := by
-          intro A B C
-          calc Y * (A * B * C) * Y = Y * A * (1 : Matrix _ _ ℂ) * B * (1 : Matrix _ _ ℂ) * C * Y := by
-                simp [Matrix.mul_assoc]
-            _ = Y * A * (Y * Y) * B * (Y * Y) * C * Y := by rw [hYY]
-            _ = (Y * A * Y) * (Y * B * Y) * (Y * C * Y) := by simp only [Matrix.mul_assoc]
-        exact e _ _ _
-    _ = W * (Y * ρ.map star * Y) * Wᴴ := by
-        rw [key, key2, Matrix.smul_mul, Matrix.mul_smul, Matrix.smul_mul, smul_smul]
-        have : U.det * V.det * (star U.det * star V.det) = 1 := by
-          have a := det_norm_one U hU
-          have b := det_norm_one V hV
-          calc U.det * V.det * (star U.det * star V.det) = (star U.det * U.det) * (star V.det * V.det) := by ring
-            _ = 1 := by rw [a, b, one_mul]
-        rw [this, one_smul]
+/-- **local-unitary covariance of the model's spin flip**: `spinFlip (W ρ Wᴴ) = W (spinFlip ρ) Wᴴ` for `W = U⊗V`, `U,V ∈ U(2)`, on the
+constant `spinFlip` that `get_concurrence_2qubit`'s model executes; hence `ρρ̃ ↦ W(ρρ̃)Wᴴ` is a similarity. -/
+theorem spinFlip_model_local_unitary (U V : Matrix (Fin 2) (Fin 2) ℂ) (hU : U * Uᴴ = 1) (hV : V * Vᴴ = 1)
+    (ρ : Matrix (Fin 4) (Fin 4) ℂ) :
+    modelFlip (kron4 U V * ρ * (kron4 U V)ᴴ) = kron4 U V * modelFlip ρ * (kron4 U V)ᴴ := by
+  have hY : sigmaYY = (sigmaY ⊗ₖ sigmaY).submatrix e4.symm e4.symm := by
+    ext i j
+    have := sigmaYY_eq_kron (e4.symm i) (e4.symm j)
+    simpa [Matrix.kroneckerMap_apply] using this
+  have key := kron_spinFlip_local_unitary U V hU hV (ρ.submatrix e4 e4)
+  have hsub := congrArg (fun M => M.submatrix e4.symm e4.symm) key
+  simp only [modelFlip] at *
+  rw [spinFlip_eq, spinFlip_eq, hY]
+  simp only [kron4]
+  have hρ : ρ = (ρ.submatrix e4 e4).submatrix e4.symm e4.symm := by
+    ext i j; simp
+  conv_lhs => rw [hρ]
+  conv_rhs => rw [hρ]
+  simp only [Matrix.submatrix_mul_equiv, ← Matrix.submatrix_map] at hsub ⊢
+  exact hsub
 
 
 /-! ## pure states: the mixed-state formulas reduce to the pure-state ones -/
@@ -286,7 +219,7 @@ theorem schmidt_trace_det (ψ : Nat → R) :
 
 omit [StarRing R] in
 /-- **product states**: for `ψ = a ⊗ b` (`ψ[2i+j] = a_i b_j`) the amplitude determinant vanishes … -/
-theorem det2_product (a b : Nat → R) : det2 (fun k => a (k / 2) * b (k % 2)) = 0 := by
+private theorem det2_product (a b : Nat → R) : det2 (fun k => a (k / 2) * b (k % 2)) = 0 := by
   simp [det2]; ring
 
 /-- … hence the matrix handed to `eigvalsh` by `get_concurrence_2qubit` for the pure product state `aaᴴ ⊗ bbᴴ` is the zero matrix
@@ -332,80 +265,58 @@ theorem bellDiag2_mulVec_bellVec (q : Nat → R) (i r : Fin 4) :
 
 /-! ## every loss is a convex combination of member values in range -/
 
-/-- **purity of an (unnormalised) reduced state is at most the square of its trace**: for `G = A Aᴴ` (the reduced state of
-the ensemble member with amplitude matrix `A`, theorem `ensembleRdm_eq`), `Σ_ij |G_ij|² ≤ (Σ_ib |A_ib|²)²` -/
-theorem gram_purity_le {m n : Type} [Fintype m] [Fintype n] (A : Matrix m n ℂ) :
-    ∑ i, ∑ j, ‖(A * Aᴴ) i j‖ ^ 2 ≤ (∑ i, ∑ b, ‖A i b‖ ^ 2) ^ 2 := by
-  have h : ∀ i j, ‖(A * Aᴴ) i j‖ ^ 2 ≤ (∑ b, ‖A i b‖ ^ 2) * (∑ b, ‖A j b‖ ^ 2) := by
-    intro i j
-    have e : (A * Aᴴ) i j = star (fun b => A j b) ⬝ᵥ (fun b => A i b) := by
-      simp [Matrix.mul_apply, conjTranspose_apply, dotProduct, mul_comm]
-    rw [e, mul_comm]
-    exact norm_dotProduct_sq_le _ _
-  calc ∑ i, ∑ j, ‖(A * Aᴴ) i j‖ ^ 2 ≤ ∑ i, ∑ j, (∑ b, ‖A i b‖ ^ 2) * (∑ b, ‖A j b‖ ^ 2) :=
-        Finset.sum_le_sum fun i _ => Finset.sum_le_sum fun j _ => h i j
-    _ = (∑ i, ∑ b, ‖A i b‖ ^ 2) ^ 2 := by rw [sq, Finset.sum_mul_sum]
+private theorem gramNat_bounds (m n : Nat) (amp : Nat → Nat → ℂ) :
+    let T : Nat → Nat → ℂ := fun p q => sumRange n fun b => amp p b * conj (amp q b)
+    let tr := sumRange m fun a => T a a
+    let pur := sumRange m fun a => sumRange m fun b => T a b * conj (T a b)
+    tr.im = 0 ∧ pur.im = 0 ∧ 0 ≤ tr.re ∧ pur.re ≤ tr.re ^ 2 ∧ tr.re ^ 2 ≤ m * pur.re := by
+  intro T tr pur
+  let A : Matrix (Fin m) (Fin n) ℂ := Matrix.of fun p b => amp p b
+  have hT : ∀ p q : Fin m, T p q = (A * Aᴴ) p q := by
+    intro p q
+    simp only [T, sumRange_eq_sum_fin, conj_eq_star]
+    rw [Matrix.mul_apply]
+    rfl
+  have htr : tr = ((∑ i : Fin m, ∑ b : Fin n, ‖A i b‖ ^ 2 : ℝ) : ℂ) := by
+    simp only [tr, T, sumRange_eq_sum_fin, conj_eq_star, A]
+    push_cast
+    refine Finset.sum_congr rfl fun i _ => Finset.sum_congr rfl fun b _ => ?_
+    rw [Complex.star_def, Complex.mul_conj']
+    rfl
+  have hpur : pur = ((∑ i : Fin m, ∑ j : Fin m, ‖(A * Aᴴ) i j‖ ^ 2 : ℝ) : ℂ) := by
+    simp only [pur, sumRange_eq_sum_fin, conj_eq_star]
+    push_cast
+    refine Finset.sum_congr rfl fun i _ => Finset.sum_congr rfl fun j _ => ?_
+    rw [hT, Complex.star_def, Complex.mul_conj']
+  have h1 := gram_purity_le A
+  have h2 := gram_purity_ge A
+  rw [Fintype.card_fin] at h2
+  rw [htr, hpur]
+  simp only [Complex.ofReal_im, Complex.ofReal_re, true_and]
+  exact ⟨Finset.sum_nonneg fun _ _ => Finset.sum_nonneg fun _ _ => by positivity, h1, h2⟩
 
-/-- … and at least `trace²/dim`: the purity of the normalised reduced state lies in `[1/d, 1]` -/
-theorem gram_purity_ge {m n : Type} [Fintype m] [Fintype n] (A : Matrix m n ℂ) :
-    (∑ i, ∑ b, ‖A i b‖ ^ 2) ^ 2 ≤ (Fintype.card m : ℝ) * ∑ i, ∑ j, ‖(A * Aᴴ) i j‖ ^ 2 := by
-  have hd : ∀ i, ‖(A * Aᴴ) i i‖ = ∑ b, ‖A i b‖ ^ 2 := by
-    intro i
-    have e : (A * Aᴴ) i i = ((∑ b, ‖A i b‖ ^ 2 : ℝ) : ℂ) := by
-      simp only [Matrix.mul_apply, conjTranspose_apply]
-      push_cast
-      refine Finset.sum_congr rfl fun b _ => ?_
-      rw [Complex.star_def, Complex.mul_conj']
-    rw [e, Complex.norm_real, Real.norm_of_nonneg (Finset.sum_nonneg fun _ _ => by positivity)]
-  calc (∑ i, ∑ b, ‖A i b‖ ^ 2) ^ 2 ≤ (Fintype.card m : ℝ) * ∑ i, (∑ b, ‖A i b‖ ^ 2) ^ 2 := by
-        have := sq_sum_le_card_mul_sum_sq (s := (Finset.univ : Finset m)) (f := fun i => ∑ b, ‖A i b‖ ^ 2)
-        simpa using this
-    _ ≤ (Fintype.card m : ℝ) * ∑ i, ∑ j, ‖(A * Aᴴ) i j‖ ^ 2 := by
-        gcongr with i _
-        rw [← hd i]
-        exact Finset.single_le_sum (f := fun j => ‖(A * Aᴴ) i j‖ ^ 2) (fun _ _ => by positivity) (Finset.mem_univ i)
+/-- **trace and purity of the reduced states that the models contract** (`prob = einsum(rdm,[0,1,1])`, `purity = contract_expr1(rdm, conj rdm)`,
+on the constants `ensembleRdm`, `ensemblePurity`): both are real, `0 ≤ p`, and `p²/m ≤ purity ≤ p²` with `m = min(dimA,dimB)` — exactly the
+hypotheses of `concMember_range` / `linentMember_range`, for every ensemble member `α`, every `S`, `X` and all sizes. -/
+theorem ensembleRdm_purity_bounds (dimA dimB rank : Nat) (S X : Nat → ℂ) (al : Nat) :
+    let m := if dimA ≤ dimB then dimA else dimB
+    let p := sumRange m fun a => ensembleRdm dimA dimB rank S X al a a
+    let pur := ensemblePurity m (fun al a b => ensembleRdm dimA dimB rank S X al a b) al
+    p.im = 0 ∧ pur.im = 0 ∧ 0 ≤ p.re ∧ pur.re ≤ p.re ^ 2 ∧ p.re ^ 2 ≤ m * pur.re := by
+  by_cases h : dimA ≤ dimB
+  · simp only [h, if_true, ensemblePurity, ensembleRdm_eq, if_true]
+    exact gramNat_bounds dimA dimB fun p b => ensembleVec rank S X al (flat [dimA, dimB] [p, b])
+  · simp only [h, if_false, ensemblePurity, ensembleRdm_eq, if_false]
+    exact gramNat_bounds dimB dimA fun p a => ensembleVec rank S X al (flat [dimA, dimB] [a, p])
 
-/-- overlap of a member with a unit vector is at most the member's weight (GME loss members lie in `[0, p_α]`) -/
-theorem overlap_sq_le {n : Type} [Fintype n] (φ ψ : n → ℂ) (hφ : ∑ k, ‖φ k‖ ^ 2 = 1) :
-    ‖∑ k, ψ k * φ k‖ ^ 2 ≤ ∑ k, ‖ψ k‖ ^ 2 := by
-  have := norm_dotProduct_sq_le (fun k => star (φ k)) ψ
-  simp only [dotProduct, Pi.star_apply, star_star, norm_star, hφ, one_mul] at this
-  simpa [mul_comm] using this
-
-/-- entropy of a member: for a spectrum `λ ≥ 0` with `Σλ = p`, `0 ≤ p log p − Σ λ log λ ≤ p log d` -/
-theorem member_entropy_range {d : Nat} (lam : Fin d → ℝ) (h0 : ∀ i, 0 ≤ lam i) (p : ℝ) (hp : ∑ i, lam i = p) (hd : 0 < d) :
-    0 ≤ p * Real.log p - ∑ i, lam i * Real.log (lam i) ∧ p * Real.log p - ∑ i, lam i * Real.log (lam i) ≤ p * Real.log d := by
-  have hp0 : 0 ≤ p := hp ▸ Finset.sum_nonneg fun i _ => h0 i
-  constructor
-  · have : ∑ i, lam i * Real.log (lam i) ≤ ∑ i, lam i * Real.log p := by
-      refine Finset.sum_le_sum fun i _ => ?_
-      rcases (h0 i).eq_or_lt with h | h
-      · simp [← h]
-      · have hle : lam i ≤ p := hp ▸ Finset.single_le_sum (fun j _ => h0 j) (Finset.mem_univ i)
-        exact mul_le_mul_of_nonneg_left (Real.log_le_log h hle) (h0 i)
-    rw [← Finset.sum_mul, hp] at this
-    linarith
-  · -- Jensen for the concave x ↦ -x log x with uniform weights
-    have hd' : (0 : ℝ) < d := by exact_mod_cast hd
-    have hJ := Real.concaveOn_negMulLog.le_map_sum (t := Finset.univ) (w := fun _ : Fin d => (1 / d : ℝ)) (p := lam)
-      (fun _ _ => by positivity) (by simp [hd'.ne']) (fun i _ => h0 i)
-    simp only [smul_eq_mul, ← Finset.mul_sum, hp, Real.negMulLog] at hJ
-    have e : ∑ i, -(lam i) * Real.log (lam i) = -∑ i, lam i * Real.log (lam i) := by
-      rw [← Finset.sum_neg_distrib]; exact Finset.sum_congr rfl fun i _ => by ring
-    rw [e] at hJ
-    rcases hp0.eq_or_lt with h | h
-    · rw [← h] at hJ ⊢
-      have hz : ∀ i, lam i = 0 := fun i =>
-        (Finset.sum_eq_zero_iff_of_nonneg fun j _ => h0 j).1 (hp.trans h.symm) i (Finset.mem_univ i)
-      simp [hz]
-    · have hl : Real.log (1 / d * p) = Real.log p - Real.log d := by
-        rw [Real.log_mul (by positivity) h.ne', one_div, Real.log_inv]; ring
-      rw [hl] at hJ
-      have : 1 / (d : ℝ) * (-∑ i, lam i * Real.log (lam i)) ≤ 1 / (d : ℝ) * (-(p * (Real.log p - Real.log d))) := by
-        calc _ ≤ -(1 / d * p) * (Real.log p - Real.log d) := hJ
-          _ = _ := by ring
-      have := le_of_mul_le_mul_left this (by positivity)
-      linarith
+/-- **the GME model's overlap with a unit product vector is at most the member's weight** (on the constant `gmeOverlap`):
+`|out_α|² ≤ Σ_k |ψ_α[k]|² = p_α`, so each member of the GME loss `p_α − |out_α|²` lies in `[0, p_α]`. -/
+theorem gmeOverlap_sq_le (dims : List Nat) (rank : Nat) (S X : Nat → ℂ) (psi : Nat → Nat → ℂ) (al : Nat)
+    (hφ : ∑ k : Fin (prodL dims), ‖(List.range dims.length).foldl
+      (fun acc x => acc * psi x (al * dims.getD x 1 + (unflat dims k).getD x 0)) 1‖ ^ 2 = 1) :
+    ‖gmeOverlap dims rank S X psi al‖ ^ 2 ≤ ∑ k : Fin (prodL dims), ‖ensembleVec rank S X al k‖ ^ 2 := by
+  rw [gmeOverlap_eq, sumRange_eq_sum_fin]
+  exact overlap_sq_le _ _ hφ
 
 
 /-! ## the hypotheses are satisfiable, the statements are not vacuous -/
